@@ -278,8 +278,8 @@ func (s *ManagedServer) LoadFromFile() error {
 	defer close()
 
 	s.mu.Lock()
-	// Skip if the file content is unchanged.
-	if content == s.cachedContent {
+	// Skip if the file content is unchanged since the last successful load or save.
+	if content == s.cachedContent && s.cachedCredMap != nil {
 		s.mu.Unlock()
 		return nil
 	}
